@@ -33,7 +33,11 @@ Technique
 concrete data, enumerates numeric inputs, unrolls over input sizes, or matches sample strings)
 
 R1  6 (PE_DEF parsed by the C-definition parser; struct sizes, field offsets/widths and #defines compared completely
-    with the PE/COFF reference table).
+    with the PE/COFF reference table; signedness: per structure of the reference table, every scalar integer member has
+    the signedness of the format - unsigned, e_lfanew signed - judged on the base type the parser resolves the declared
+    type to, so equivalent spellings ULONG/DWORD/UINT/uint32 are the same) + 1 (the members concerned are those whose
+    name is loaded as an attribute somewhere in the package: who-may-read by name; a member nobody reads is not judged,
+    a member whose type cannot be resolved is undecided).
 R2  1, 3 (file-position typestate of csverif.cursor: seek/parse/read sites with symbolic positions; positions
     canonicalised to polynomials over roles by substituting definitions and compared in SymPoly normal form; a `range`
     loop contributes its index as the symbol `_i_`, the body is looked at once), 2 (the conditions under which a section
@@ -106,7 +110,8 @@ R6  1, 3 (the reads that flow into the returned pair; positions and lengths as p
 Lemmas (each also listed in rep.trusted_base)
 L1  for integers, `a < b` is `b - a - 1 >= 0`, `a <= b` is `b - a >= 0`, and the negation of `<`/`<=` is `>=`/`>`.
 L2  the truth value of an Optional[int] is False exactly for None and 0.
-L3  a PE time stamp is an unsigned field: non-zero means > 0 (so `> 0`, `>= 1`, `!= 0` and truthiness coincide).
+L3  a PE time stamp is an unsigned field (R1 judges the declared type): non-zero means > 0 (so `> 0`, `>= 1`, `!= 0` and
+    truthiness coincide).
 L4  a capturing group whose sub-pattern has minimum width >= 1 over a digit class is, when it took part in the match, a
     non-empty string of digits (truthy, accepted by int()); a group inside a `?` repeat that did not take part is None.
 L5  Match[k] and Match.groupdict()[k] equal Match.group(k) for a group name k.
@@ -164,7 +169,10 @@ def run(ctx):
     rep = ctx.rep
     rep.explanation = (
         "Static analysis of pe.py / version.py / BeaconConfig.version: PE structure layouts computed from PE_DEF (cstruct "
-        "little-endian) compared with the PE/COFF reference for every field the code reads; a symbolic file-position "
+        "little-endian) compared with the PE/COFF reference for every field the code reads, including the signedness of the "
+        "declared type of every integer member the package reads (time stamps, machine, section count, sizes, file pointers "
+        "and rvas are unsigned - a signed type of the same width would report values with the top bit set as negative "
+        "numbers; e_lfanew is signed); a symbolic file-position "
         "typestate whose positions are canonicalised to polynomials over roles (DOS/FILE/OPT/SECTION parses, the image base "
         "MZ, the candidate index) checks that in each pe.find_* function the DOS header, signature, file header, optional "
         "header, section table, export directory, PE magic, prepend and append bytes are read at the position the format "
@@ -194,6 +202,7 @@ def run(ctx):
     )
     rep.not_decided = [
         "unusual images (SizeOfOptionalHeader != struct size, overlapping sections)",
+        "signedness of a header member whose declared C type the C-definition parser cannot resolve (typedefs introduced in PE_DEF, multi-word C types): undecided; values converted after the parse by package code (int.from_bytes / struct.unpack on raw reads instead of a cstruct member)",
         "timestamp -> release truth of each table row",
         "version regexes outside the recognised syntax-tree forms (alternations, lazy/possessive repeats, look-arounds, inline flags, named groups with other sub-patterns): undecided",
         "loop-free functions containing statement kinds the path walk does not model (try, while, loops over non-literal sequences): undecided",
@@ -213,6 +222,7 @@ def run(ctx):
         "L1: integer a < b <=> b - a - 1 >= 0; a <= b <=> b - a >= 0; not(a < b) <=> a >= b",
         "L2: an Optional[int] is falsy exactly for None and 0",
         "L3: a PE time stamp is unsigned: non-zero <=> > 0",
+        "PE/COFF: every integer member of the DOS/file/optional/section headers, the data directory and the export directory is unsigned except IMAGE_DOS_HEADER.e_lfanew; signedness of the C base types as listed in csverif/cdefs.py (BASE_TYPES, the names dissect.cstruct predefines)",
         "L4: a group with a digit-class sub-pattern of minimum width >= 1 that took part in the match is a non-empty digit string (truthy, int() accepts it); an optional group that did not take part is None",
         "L5: Match[k] == Match.groupdict()[k] == Match.group(k)",
         "L6: m > 0, m >= k (k >= 1), m != 0 and truthiness of an integer m each exclude m == 0",
@@ -256,6 +266,44 @@ def r1(ctx):
         ctx.ob("R1", "TABLE", "pe.py::PE_DEF::#define", k, cd.defines.get(k) == v, f"{k} = {cd.defines.get(k)} (reference {v})", nontrivial=False)
     e = cd.struct("IMAGE_DOS_HEADER").field("e_lfanew")
     ctx.ob("R1", "TABLE", "pe.py::PE_DEF::IMAGE_DOS_HEADER", "e_lfanew signed", e is not None and e.signed, "e_lfanew is a signed LONG (the `> 0` constraint matters)")
+    _r1_signedness(ctx, cd)
+
+
+# The integer members of the PE/COFF headers are unsigned (WORD/DWORD/ULONGLONG in winnt.h, "unsigned" throughout the
+# PE/COFF specification); the one signed member of the structures of the reference table is IMAGE_DOS_HEADER.e_lfanew.
+_PE_SIGNED_MEMBERS = frozenset({("IMAGE_DOS_HEADER", "e_lfanew")})
+
+
+def _r1_signedness(ctx, cd):
+    """A member the package reports or computes with (time stamps, machine, section count, sizes, file pointers, rvas) has
+    the value of the image only when its C type has the signedness of the format: a signed type of the right width leaves
+    size and offsets alone (the layout obligation holds) and turns every value with the top bit set into a negative
+    number.  Judged on the parsed definitions (device 6): per structure of the reference table, every scalar integer
+    member whose name is loaded as an attribute somewhere in the package (who-may-read, by name - an over-approximation
+    of the members that are read); the signedness is that of the member's base type as resolved by the C-definition
+    parser (through enum base types).  A member whose type the parser cannot resolve is undecided."""
+    may_read = {n.attr for m in ctx.repo.modules.values() for n in ast.walk(m.tree) if isinstance(n, ast.Attribute) and isinstance(n.ctx, ast.Load)}
+    for name in tables.PE_LAYOUT:
+        s = cd.struct(name)
+        wrong, unresolved, seen = {}, [], []
+        for fl in s.fields:
+            if fl.count is not None or fl.type in ("union", "struct") or fl.type in cd.structs or fl.name not in may_read:
+                continue  # arrays (names, reserved words, the data directory), nested records, members nobody reads
+            if (name, fl.name) in _PE_SIGNED_MEMBERS:
+                continue  # obligation "e_lfanew signed" above
+            if cd.type_size(fl.type) is None:
+                unresolved.append(f"{fl.name}: {fl.type}")
+                continue
+            seen.append(fl.name)
+            if fl.signed:
+                wrong[fl.name] = fl.type
+        where, text = f"pe.py::PE_DEF::{name}", "members read by the package are unsigned"
+        if wrong or not unresolved:
+            ctx.ob("R1", "TABLE", where, text, not wrong,
+                   f"unsigned in PE/COFF, read by the package: {', '.join(seen) or '-'}; declared with a signed type (values >= 2**(bits-1) of the image would be reported negative): {wrong}"
+                   + (f"; type not resolved: {unresolved}" if unresolved else ""), nontrivial=bool(seen))
+        else:
+            ctx.undecided("R1", "TABLE", where, text, f"the C-definition parser cannot resolve the type of {unresolved}; resolved members: {', '.join(seen) or '-'}")
 
 
 # ============================================================================ canonical expressions
